@@ -29,6 +29,7 @@ META["technique"] = "static analysis: dominance / provenance / typestate rules o
 META["explanation"] += " R09.11 imbl's asserting partial calls (take / split_at / split_off / slice) in the Head, Tail, Skip modules take a position bounded by the vector's length, never one made of the limit / count alone (it panics for a limit beyond the length)."
 META["explanation"] += " R09.12 view-length balance (engine/rules/balance.py): a path-partitioned abstract interpretation in the domain of linear inequalities over L/C (limit, count), P (previous length), I, K (payload index / length), A, R (payload sizes), N, O (buffer length, old limit in the update functions): on every path of every arm of the three translators and of update_limit / update_count the length of the consumer's view after the emitted diffs, view(P) + effects, equals view(N') for the new source length in every feasible case (min / saturating_sub split into linear pieces, emptiness by Fourier-Motzkin elimination, a violation only with a concrete witness of the symbols); R09.13 every emitted Insert / Set / Remove index lies inside the view it is applied to and its computation does not underflow; R09.14 every item the poll function returns comes out of the container operations (translator / update function), never the polled source item itself."
 META["explanation"] += " R09.15 refill positions (balance.py): an item the adapter refills the view with (a looked-up `buffered_vector.get(i)`, an iterator group over the buffer, an appended slice of it) is taken from the buffer position adjacent to the view - index `cur` for a Head view (a prefix), `N' - cur - 1` (descending) for Tail and Skip views (suffixes) - in every feasible case, for translators and update functions: right count *and* right items."
+META["explanation"] += ' R09.16 checked additions / multiplications whose operand is the raw limit / count value (which may be usize::MAX) are reported: the stream panics where the property demands a view.'
 
 
 def run(ctx):
